@@ -371,3 +371,109 @@ def short(callee):
     s = "".join(out).replace("::::", "::")
     parts = [p for p in s.split("::") if p]
     return "::".join(parts[-2:])
+
+
+# ---- forward flow (where does a value end up) ------------------------------------------------------
+
+def sinks(body, start_local, follow_pass_through=True, follow_refs=True, max_steps=400):
+    """Forward slice: the places a value that lives in `start_local` can flow to.
+    Returns a list of sinks: dicts with k in
+       call  (bb, arg index, term)         passed to a call (not a pass-through)
+       agg   (kind, def, field index, bb)  stored into an aggregate (closure capture, struct field, enum payload)
+       store (place)                       written into a field of another local
+       ret                                  reaches the return place
+       drop  (bb)                          explicit Drop terminator (pre-MIR: scope end, conditional)
+       inspect (bb)                        only looked at (discriminant / switch / comparison)
+       yield
+    """
+    out = []
+    seen = set()
+    work = [start_local]
+    steps = 0
+    while work and steps < max_steps:
+        l = work.pop()
+        if l in seen:
+            continue
+        seen.add(l)
+        steps += 1
+        if l == 0:
+            out.append({"k": "ret"})
+        for bi, blk in enumerate(body.blocks):
+            if blk["c"]:
+                continue
+            for si, st in enumerate(blk["s"]):
+                if st["k"] != "assign":
+                    continue
+                r = st["r"]
+                lhs = st["p"]
+                k = r["k"]
+                hit = False
+                if k in ("use", "cast", "repeat"):
+                    p = operand_place(r["o"])
+                    hit = p is not None and p[0] == l
+                    if hit:
+                        if len(lhs) == 1:
+                            work.append(lhs[0])
+                        else:
+                            out.append({"k": "store", "place": lhs, "bb": bi, "l": st.get("l")})
+                            work.append(lhs[0])
+                elif k in ("ref", "copyderef", "rawptr"):
+                    if r["p"][0] == l and follow_refs:
+                        if len(lhs) == 1:
+                            work.append(lhs[0])
+                elif k == "agg":
+                    for idx, o in enumerate(r["ops"]):
+                        p = operand_place(o)
+                        if p is not None and p[0] == l:
+                            out.append({"k": "agg", "ak": r.get("ak"), "def": r.get("def"), "variant": r.get("variant"), "idx": idx, "bb": bi, "l": st.get("l")})
+                            if len(lhs) == 1:
+                                work.append(lhs[0])
+                            else:
+                                work.append(lhs[0])
+                elif k == "discr":
+                    if r["p"][0] == l:
+                        out.append({"k": "inspect", "bb": bi})
+                elif k in ("un", "bin"):
+                    for p in rvalue_places(r):
+                        if p[0] == l:
+                            out.append({"k": "inspect", "bb": bi})
+            t = blk["t"]
+            tk = t["k"]
+            if tk == "call":
+                for idx, o in enumerate(t["args"]):
+                    p = operand_place(o)
+                    if p is not None and p[0] == l:
+                        if follow_pass_through and is_pass_through(t.get("callee")) and idx == 0:
+                            d = t["dest"]
+                            work.append(d[0])
+                        else:
+                            out.append({"k": "call", "bb": bi, "idx": idx, "t": t})
+                if "fnplace" in t and t["fnplace"][0] == l:
+                    out.append({"k": "invoke", "bb": bi, "t": t})
+            elif tk == "drop":
+                if t["p"][0] == l and len(t["p"]) == 1:
+                    out.append({"k": "drop", "bb": bi})
+            elif tk == "switch":
+                p = operand_place(t["o"])
+                if p is not None and p[0] == l:
+                    out.append({"k": "inspect", "bb": bi})
+            elif tk == "yield":
+                p = operand_place(t["v"])
+                if p is not None and p[0] == l:
+                    out.append({"k": "yield", "bb": bi})
+    return out
+
+
+def agg_sites(body, adt=None, variant=None, ak="adt"):
+    """statements constructing an aggregate: yields (bb, si, stmt)"""
+    for bi, blk in enumerate(body.blocks):
+        if blk["c"]:
+            continue
+        for si, st in enumerate(blk["s"]):
+            if st["k"] == "assign" and st["r"]["k"] == "agg" and st["r"].get("ak") == ak:
+                r = st["r"]
+                if adt is not None and r.get("def") != adt:
+                    continue
+                if variant is not None and r.get("variant") != variant:
+                    continue
+                yield bi, si, st
